@@ -338,6 +338,7 @@ def run_instance(inst, tier='quick', seed=0):
               cfg, None, f'{type(e).__name__}: {e}', 'get_all_design_vectors returns')
         return res
     used_values = [set() for _ in range(n)]
+    inactive_seen = [None for _ in range(n)]  # (pattern, corrected vector) in which variable i was reported inactive
     tracer = FuncTracer()
 
     for k_pat, pat in enumerate(s['patterns']):
@@ -362,7 +363,7 @@ def run_instance(inst, tier='quick', seed=0):
             # budgets: the quick tier only runs instances with an estimated <= QUICK_PATH_BUDGET paths; a run that needs far
             # more than its estimate (e.g. a clamp that no longer clamps makes the case split endless) is cut short
             if tier == 'quick':
-                ex = explore(run, max_paths=max(400, 4*est), time_cap_s=90, fanout_cap=40)
+                ex = explore(run, max_paths=max(400, 4*est), time_cap_s=90, fanout_cap=max(40, max(n_opts+[0])+3))
             else:
                 ex = explore(run, max_paths=20000, time_cap_s=INSTANCE_CAP_S/2, fanout_cap=200)
         finally:
@@ -455,6 +456,8 @@ def run_instance(inst, tier='quick', seed=0):
             for i in range(n):
                 if act[i]:
                     used_values[i].add(x_out[i])
+                elif inactive_seen[i] is None:
+                    inactive_seen[i] = (pl, k_pat, list(x_out[:n]), vec_c)
 
         listed = all_dvs.get(e)
         listed_rows = [] if listed is None else [[int(v) for v in row] for row in np.array(listed).tolist()]
@@ -576,6 +579,19 @@ def run_instance(inst, tier='quick', seed=0):
             res['sample'] = dict(encoder=enc_name, settings=pool.settings_label(s), pattern=pl, declared=n_opts, surplus=n_extra,
                                  paths=len(ex.paths), corrected_vectors=len(by_x), matrices=len(uniq),
                                  example_path=dict(pc=str(ex.paths[0].pc)[:300], out=str(ex.paths[0].value)[:200]))
+
+    # C07: a variable that is not flagged conditionally active is active in every valid design
+    if not is_cv:
+        for i, dv in enumerate(mgr.design_vars):
+            res['obligations'] += 1
+            if inactive_seen[i] is not None and not dv.conditionally_active:
+                pl_, kp_, xo_, vc_ = inactive_seen[i]
+                _viol(res, 'decode', dict(kind='inactive_but_not_flagged_conditional', encoder=f'{kind}{i_enc}', encoder_class=enc_name.split('(')[0],
+                                          settings=pool.settings_label(s), pattern=pl_, var=i), cfg,
+                      dict(vector=vc_, pattern=pl_, k_pat=kp_), dict(x=xo_, inactive_variable=i, conditionally_active=False),
+                      'a variable reported inactive in some valid design is flagged conditionally active', prop='C07')
+            else:
+                res['discharged'] += 1
 
     # every declared variable has at least two used values (over all patterns of the settings)
     if not is_cv and res['status'] == HOLDS and all(has_valid):
